@@ -828,7 +828,9 @@ impl G {
     fn push(&mut self, step: String) -> usize {
         if std::env::var_os("C01_TRACE").is_some() { eprintln!("{} || {}", self.steps.join(" "), step); }
         let mut bad = vec![];
+        let t0 = std::time::Instant::now();
         let o = run_step(&self.store, &step, &mut bad);
+        if std::env::var_os("C01_TIME").is_some() && t0.elapsed().as_millis() > 150 { eprintln!("{} ms  {}  (on {})", t0.elapsed().as_millis(), step, self.steps.first().map_or("", |s| s.as_str())); }
         let name = label_of(&step).to_string();
         let refs = step_refs(&step);
         let text = if name.starts_with("u.") { let r = record(&o); format!("{}|={}", step, if matches!(r.as_str(), "E" | "P" | "S" | "N") { "N".to_string() } else { r }) } else { step };
